@@ -781,6 +781,18 @@ def cacheTTL (answer ns extra : List TTLItem) : Nat :=
     let m := sectionBound false extra (sectionBound true ns (sectionBound false answer 86400))
     if m < 5 then 5 else m
 
+/-! ### more of the AD bit inside the resolver -/
+
+/-- `Resolver.filterAuthorityRecords`: the allow-list applied to the authority section of an "SOA beside
+NS" response before it is validated — SOA, NSEC, NSEC3, RRSIG. -/
+def denialRecordType (t : Nat) : Bool := t == 6 || t == 47 || t == 50 || t == 46
+
+def filterAuthorityRecords (types : List Nat) : List Nat := types.filter denialRecordType
+
+/-- the DNAME splice of `Resolver.answer`: the outer (validated) response keeps AD only if the
+separately resolved target leg has it — whether that leg carries records or an empty-answer denial. -/
+def dnameSpliceAD (outer target : Bool) (_targetAnswers : Nat) : Bool := outer && target
+
 /-! ### errors toward the client — `DNSHandler.handle` + `dnsutil.SetRcodeWithEDE` -/
 
 /-- Extended DNS Error code carried by each validation error (`dnssec/errors.go`, `dnsutil.ErrorToEDE`). -/
